@@ -32,6 +32,11 @@ type RoundTripSpec struct {
 	// UnorderedArrays names modules whose exported arrays carry no order (the module builds them from Go maps;
 	// that nondeterminism is C11's subject): their arrays are sorted before the fixpoint comparison.
 	UnorderedArrays map[string]bool
+	// ZeroHeightKeeps lists, per module, JSON paths of collections in the exported genesis whose number of
+	// elements the module's prepare-for-zero-height step must not change (the step rebases heights, it does not
+	// drop durable objects). Path syntax: /a/b for object members, * for every member of an object, [] to
+	// descend into / count the elements of an array; e.g. "/pending_random_requests/*/requests[]".
+	ZeroHeightKeeps map[string][]string
 	// Gov are parameter changes by the authority offered as extra operations in every state ("for all valid
 	// parameter sets": a chain's parameters change mid-history, after objects were created under the old ones).
 	Gov []GovOp
@@ -96,6 +101,12 @@ func (r *RoundTrip) Check(e *Env, s *State) []Finding {
 	fs = append(fs, r.roundTrip(e, b, false)...)
 	if r.Spec.Prep != nil {
 		z := Branch(b)
+		before := map[string]json.RawMessage{}
+		for m := range r.Spec.ZeroHeightKeeps {
+			if raw, err := exportModule(e, b, m); err == nil {
+				before[m] = raw
+			}
+		}
 		func() {
 			defer func() {
 				if p := recover(); p != nil {
@@ -104,6 +115,19 @@ func (r *RoundTrip) Check(e *Env, s *State) []Finding {
 			}()
 			r.Spec.Prep(e, z)
 		}()
+		for m, paths := range r.Spec.ZeroHeightKeeps {
+			after, err := exportModule(e, z, m)
+			if err != nil || before[m] == nil {
+				continue
+			}
+			for _, p := range paths {
+				n0, n1 := countAt(before[m], p), countAt(after, p)
+				if n0 != n1 {
+					fs = append(fs, F(fmt.Sprintf("%s/%s/zero-height-export-drops-objects%s", r.Spec.Property, m, p),
+						"the as-is export of %s holds %d elements at %s, the export after the module's prepare-for-zero-height step %d", m, n0, p, n1))
+				}
+			}
+		}
 		fs = append(fs, r.roundTrip(e, z, true)...)
 	}
 	return fs
@@ -366,4 +390,102 @@ func sortVal(v interface{}) interface{} {
 	default:
 		return v
 	}
+}
+
+// ReimportModule models a chain restart from its own exported genesis for one module, in place: the module's
+// genesis is exported from ctx, validated, its store emptied and the genesis imported again on the same ctx.
+// It returns an error if any step fails (panics included); the caller decides what that means.
+func ReimportModule(e *Env, ctx sdk.Context, name string) (err error) {
+	defer func() {
+		if p := recover(); p != nil {
+			err = fmt.Errorf("panic: %v", p)
+		}
+	}()
+	raw, err := exportModule(e, ctx, name)
+	if err != nil {
+		return err
+	}
+	g, ag := genesisModule(e, name)
+	if g != nil {
+		err = g.ValidateGenesis(e.Cdc, e.App.TxConfig(), raw)
+	} else {
+		err = ag.ValidateGenesis(e.Cdc, e.App.TxConfig(), raw)
+	}
+	if err != nil {
+		return err
+	}
+	st := ctx.MultiStore().GetKVStore(e.StoreKey(storeOf(name)))
+	var keys [][]byte
+	it := st.Iterator(nil, nil)
+	for ; it.Valid(); it.Next() {
+		keys = append(keys, append([]byte{}, it.Key()...))
+	}
+	it.Close()
+	for _, k := range keys {
+		st.Delete(k)
+	}
+	if g != nil {
+		g.InitGenesis(ctx, e.Cdc, raw)
+	} else {
+		ag.InitGenesis(ctx, e.Cdc, raw)
+	}
+	return nil
+}
+
+// countAt counts the elements a path pattern selects in a JSON document (see RoundTripSpec.ZeroHeightKeeps).
+func countAt(raw json.RawMessage, pattern string) int {
+	var v interface{}
+	if err := json.Unmarshal(raw, &v); err != nil {
+		return -1
+	}
+	var parts []string
+	for _, seg := range strings.Split(strings.TrimPrefix(pattern, "/"), "/") {
+		arr := strings.HasSuffix(seg, "[]")
+		seg = strings.TrimSuffix(seg, "[]")
+		if seg != "" {
+			parts = append(parts, seg)
+		}
+		if arr {
+			parts = append(parts, "[]")
+		}
+	}
+	var walk func(v interface{}, i int) int
+	walk = func(v interface{}, i int) int {
+		if i == len(parts) {
+			return 1
+		}
+		switch parts[i] {
+		case "[]":
+			arr, ok := v.([]interface{})
+			if !ok {
+				return 0
+			}
+			n := 0
+			for _, x := range arr {
+				n += walk(x, i+1)
+			}
+			return n
+		case "*":
+			obj, ok := v.(map[string]interface{})
+			if !ok {
+				return 0
+			}
+			n := 0
+			for _, x := range obj {
+				n += walk(x, i+1)
+			}
+			return n
+		default:
+			obj, ok := v.(map[string]interface{})
+			if !ok {
+				return 0
+			}
+			x, ok := obj[parts[i]]
+			if !ok || x == nil {
+				return 0
+			}
+			return walk(x, i+1)
+		}
+	}
+	return walk(v, 0)
 }
